@@ -14,7 +14,7 @@ RULE = ("one case = (network, text); every case is fed to every single-string en
         "network.parse(text). Texts: pycoin-serialised valid objects of every kind; reference-built valid texts; Base58Check "
         "strings with each declared prefix x payload length 0..90 x contents {zeros, order n, ff, random, structured "
         "WIF/BIP32 bodies with boundary keys}; prefix embedded off position; bech32/bech32m with the HRP and a foreign HRP "
-        "x version x length x checksum constant; H:/P:/E: forms with hex of every length and non-hex; x/even, x/odd, "
+        "x version x length x checksum constant, and well-formed addresses under an HRP that extends / truncates the own one; H:/P:/E: forms with hex of every length and non-hex; x/even, x/odd, "
         "x,y forms with and without curve points; numeric forms; empty/whitespace/colon; random unicode (no surrogates); "
         "single-character mutations of valid texts; constructed texts = valid Base58 addresses / WIFs whose payload is computed "
         "(interval arithmetic on the reference codec, vmon/gen/b58shape.py) so that the text begins with '<hrp>1' of the network "
@@ -27,12 +27,16 @@ RULE = ("one case = (network, text); every case is fed to every single-string en
         "shaped, bad checksum, refused payload, seeds, electrum, numbers, pairs). "
         "Non-trivial = non-empty text; distinct by (network, text) resp. (network, partner, text).")
 ASSUMPTIONS = [
-    "declared prefixes / HRP are read from the network object (network.parse._*_prefix); the text model in "
-    "vmon/refs/keytext.py is self-tested on published WIF, BIP32 vector 1, BIP173/BIP350 and well-known addresses",
+    "declared prefixes / HRP / SEC tag are read from what the network's public encoders write (address.for_p2pkh / for_p2sh / "
+    "for_p2pkh_wit, wif_for_blob, sec_text_for_blob, bipNN_as_string), decoded by the reference codecs; attributes of "
+    "network.parse only fill in what no encoder shows. The text model in vmon/refs/keytext.py is self-tested on published "
+    "WIF, BIP32 vector 1, BIP173/BIP350 and well-known addresses",
     "'re-serialises' uses: Key private -> wif(), Key public -> as_text(), BIP32/49/84 node -> hwif(as_private=is_private()), "
-    "electrum wallet -> 'E:' + hex(serialize()), Contract -> address() for address parsers, disassemble() for the script "
-    "parser, either for payable/parse(); int -> str, bytes -> Base58Check. Seed / number / public-pair parsers are re-parsed "
-    "with the parser of the text form they serialise to (bip32_prv, electrum_prv, wif, sec)",
+    "electrum wallet -> 'E:' + hex(serialize()), Contract -> address() (a contract whose script is none of the five address "
+    "templates, or whose kind the network declares no prefix for, has no text form: nothing to be faithful to; script text is "
+    "C12's); int -> str, bytes -> Base58Check. Seed / number / public-pair parsers are re-parsed with the parser of the text "
+    "form they serialise to (bip32_prv, electrum_prv, wif, sec). A text that already is the re-serialisation of what the "
+    "entry point returned for it is not parsed a second time (it is the same call)",
     "'equal object': keys = same secret exponent, public pair and compression; nodes = all BIP32 fields and family; "
     "contracts = same script bytes",
     "a public-key x coordinate >= p inside an extended key or SEC text is left to C10 (no expectation here)",
@@ -46,7 +50,14 @@ ASSUMPTIONS = [
     "a Base58 text spelled with hex digits only is also a numeral and a bare hex script literal: entry points with the "
     "free-form number / script parser behind them (secret_exponent, private_key, secret, script, payable, parse()) may return "
     "that reading; the statement gives no precedence between a checksummed and a free-form kind (pycoin's parse() returns "
-    "the data-push script for a hex-only WIF)",
+    "the data-push script for a hex-only WIF). The number reading is int(text) / int(text, 16); the script reading is whatever "
+    "network.parse.script makes of the text (how a script text compiles is C12's; the script parser has no checksummed kind)",
+    "a plain ASCII decimal numeral without leading zero denotes that number (secret_exponent, private_key, secret)",
+    "the specific parsers (p2pkh, p2sh, wif, bipNN_prv/_pub, segwit kinds, address) return None for every text the model does "
+    "not decode as their kind, also foreign prefixes / HRPs and bad checksums ('silently reinterpreted'). The combined bip32 / "
+    "bip49 / bip84 parsers are documented as 'a seed, a prv or a pub': they are held to that for checksummed text only. A "
+    "catch-all given valid checksummed text of a kind it does not dispatch to may return None or the very object the text "
+    "denotes (private_key given an xprv), not anything else",
 ]
 EXPLANATION = ("total: any exception is a violation; refusal/kind separation: a checksummed-kind parser must return None unless "
                "the independent model decodes the text as that kind, and then the object must carry the model's fields; "
@@ -130,8 +141,40 @@ def entry_points(parse_obj):
     return sorted(eps)
 
 
-params_of = NETS.params_of
 usable_networks = NETS.usable_networks
+
+
+def params_of(net):
+    """prefixes / HRP / SEC tag the network declares, read from what its public encoders write (address.for_p2pkh /
+    for_p2sh / for_p2pkh_wit, wif_for_blob, sec_text_for_blob, bipNN_as_string; None or an exception = not shown by an
+    encoder). The attributes of network.parse (vmon.gen.nets.params_of) only fill in what no public encoder shows (e.g.
+    a network whose Base58 checksum cannot be computed here)."""
+    old = NETS.params_of(net)
+
+    def b58_prefix(f, body, *more):
+        st, t = observe(f, body, *more) if callable(f) else ("exc", None)
+        payload = RB.decode_check(t) if st == "ok" and isinstance(t, str) and t.isascii() else None
+        return payload[:-len(body)] if payload is not None and len(payload) >= len(body) and payload.endswith(body) else None
+
+    addr = getattr(net, "address", None)
+    kw = {"symbol": getattr(net, "symbol", None) or old.symbol}
+    kw["p2pkh"] = b58_prefix(getattr(addr, "for_p2pkh", None), b"\x11" * 20)
+    kw["p2sh"] = b58_prefix(getattr(addr, "for_p2sh", None), b"\x11" * 20)
+    kw["wif"] = b58_prefix(getattr(net, "wif_for_blob", None), b"\x11" * 32)
+    f = getattr(addr, "for_p2pkh_wit", None)
+    st, t = observe(f, b"\x11" * 20) if callable(f) else ("exc", None)
+    raw = R32.raw_decode(t) if st == "ok" and isinstance(t, str) else None
+    kw["hrp"] = raw[0] if raw else None
+    f = getattr(net, "sec_text_for_blob", None)
+    st, t = observe(f, b"\x02") if callable(f) else ("exc", None)
+    kw["sec_prefix"] = t[:-2] if st == "ok" and isinstance(t, str) and t.endswith("02") else None
+    for k in KT.BIP_KINDS:
+        fam, pp = k.split("_")
+        kw[k] = b58_prefix(getattr(net, fam + "_as_string", None), bytes(73) + b"\x11", pp == "prv")
+    for f in KT.Params.FIELDS:
+        if kw.get(f) is None:
+            kw[f] = getattr(old, f)
+    return KT.Params(**kw)
 
 
 def configurations(tier):
@@ -256,15 +299,23 @@ def seed_form(text):
     return False
 
 
-def freeform_reading(ep, text, s, rec):
-    """A Base58 text spelled with hex digits only is also a numeral and, to the script compiler, a bare hex literal (one
-    data push). True when `s` is what such a free-form (not checksummed-kind) reading of `text` denotes and `ep` is an
-    entry point that has that free-form parser behind it."""
+def freeform_reading(ctx, ep, text, s, rec):
+    """A Base58 text spelled with hex digits only is also a numeral and, to the script compiler, a bare hex literal.
+    True when `s` is what such a free-form (not checksummed-kind) reading of `text` denotes and `ep` is an entry point
+    that has that free-form parser behind it. The number reading is int(text) / int(text, 16); the script reading is
+    whatever the network's own script parser makes of the text (what a script text compiles to is C12's matter, and the
+    statement names no checksummed kind that the script parser could confuse the text with)."""
     if ep in NUMBER_EPS and s[0] == "key" and s[1] is not None and s[1] == _py_number(text):
         rec.ev("freeform.number_reading_of_checksummed_text")
         return True
-    if ep in SCRIPT_EPS and s[0] == "contract" and strict_hex(text) is not None and s[1] == KT.push(strict_hex(text)):
-        rec.ev("freeform.hex_push_reading_of_checksummed_text")
+    if ep in SCRIPT_EPS and s[0] == "contract":
+        if ep != "script":
+            if "script" not in ctx.fn:
+                return False
+            st, w = observe(ctx.fn["script"], text)
+            if st != "ok" or w is None or sig(w) != s:
+                return False
+        rec.ev("freeform.script_reading_of_checksummed_text")
         return True
     return False
 
@@ -369,26 +420,43 @@ def case_of(ctx, ep, text, must, expect):
     return c
 
 
-def judge(ctx, ep, text, A, rec, must=None, expect=None, deep=False):
+def judge(ctx, ep, text, A, rec, must=None, expect=None, deep=False, memo=None):
     """One call of one entry point on one text. `must`: the kind label when this entry point has to accept the text
-    (text came out of pycoin's own serialiser for that kind); `expect`: signature the result must then have."""
+    (text came out of pycoin's own serialiser for that kind); `expect`: signature the result must then have.
+    `memo`: scratch dict shared by the calls on one text (what the model says per set of kinds)."""
+    if memo is None:
+        memo = {}
+
+    def ok_bad(ks):
+        r = memo.get(ks)
+        if r is None:
+            r = memo[ks] = (A.ok(ks), A.bad(ks)) if (ks and A.kinds) else ({}, {})
+        return r
     fn = ctx.fn[ep]
     rec.ev("parse." + ep)
     st, v = observe(fn, text)
-    case = None
     if st == "exc":
         mech = diagnose(ep, A, text) or "total.%s.%s" % (ep, type(v).__name__)
         rec.violation(mech, case_of(ctx, ep, text, must, expect), v, "an object or None")
         return
-    if ep in PURE and A.kinds:
-        mine = PURE[ep]
-        if not A.ok(mine):
-            if A.bad(mine):
+    kinds = ep_kinds(ep)
+    if A.kinds and kinds is not None and not ok_bad(kinds)[0]:
+        # which clause this call decides (counted whatever the answer is)
+        bad = ok_bad(kinds)[1]
+        if ep in PURE:
+            if bad:
                 rec.ev("refusal.judged")                       # own prefix, invalid payload -> must be None
-                if A.ok(KT.ALL_KINDS):
+                for r in set(bad.values()):
+                    rec.ev("refusal.judged." + r)
+                if ok_bad(KT.ALL_KINDS)[0]:
                     rec.ev("kindsep.shared_prefix_judged")     # ... and the text is a valid object of another kind
-            elif A.ok(KT.ALL_KINDS):
+            elif ok_bad(KT.ALL_KINDS)[0]:
                 rec.ev("kindsep.other_kind_judged")            # valid text of another checksummed kind -> must be None
+        elif bad:
+            rec.ev("refusal.catchall_judged")                  # a catch-all that dispatches to the kind of the bad payload
+        elif ok_bad(KT.ALL_KINDS)[0]:
+            # valid text of a checksummed kind this catch-all / free-form parser does not dispatch to
+            rec.ev("kindsep.catchall_judged" if kinds else "kindsep.freeform_parser_judged")
     if v is None:
         if must:
             mech = "sec.as_text_not_parsed" if must == "sec_text" else "valid.%s_not_parsed_by.%s" % (must, ep)
@@ -397,9 +465,16 @@ def judge(ctx, ep, text, A, rec, must=None, expect=None, deep=False):
     rec.ev("returned." + ep)
     s = sig(v)
     # a checksummed text that also has a free-form reading (hex-only Base58): an entry point with the free-form parser
-    # behind it may return that reading - the statement gives no precedence between a checksummed and a free-form kind
-    ambiguous = A.checksummed and ep not in PURE and freeform_reading(ep, text, s, rec)
-    if expect is not None and must and tuple(expect) != s and not ambiguous:
+    # behind it may return that reading - the statement gives no precedence between a checksummed and a free-form kind.
+    # Evaluated only when something is about to be reported.
+    amb = []
+
+    def ambiguous():
+        if not amb:
+            amb.append(bool(A.checksummed and ep not in PURE and freeform_reading(ctx, ep, text, s, rec)))
+        return amb[0]
+
+    if expect is not None and must and tuple(expect) != s and not ambiguous():
         mech = diagnose(ep, A, text, v) or "valid.%s_parsed_to_other_object.%s" % (must, ep)
         rec.violation(mech, case_of(ctx, ep, text, must, expect), s, expect)
         return
@@ -415,29 +490,36 @@ def judge(ctx, ep, text, A, rec, must=None, expect=None, deep=False):
     if ep == "parse_b58_hashed" and v != A.payload:
         rec.violation("b58.payload_differs_from_text", case_of(ctx, ep, text, must, expect), v, A.payload)
         return
-    kinds = ep_kinds(ep)
-    free = kinds is not None and any(r == "free" for r in A.bad(kinds).values())
-    if kinds is not None and not free and not ambiguous:
-        oks = A.ok(kinds)
-        bad_here = A.bad(kinds)
+    free = kinds is not None and any(r == "free" for r in ok_bad(kinds)[1].values())
+    if kinds is not None and not free:
+        oks, bad_here = ok_bad(kinds)
         verdict = None
         if oks:
             if not any(match_value(v, val, deep) for val in oks.values()):
                 verdict = ("%s.value_differs_from_text" % ep, sorted(oks.items()))
+        elif ep in KT.BIP_FAMILIES and not A.checksummed:
+            # bip32 / bip49 / bip84 are documented as "either a seed, a prv or a pub": what they make of text that is no
+            # checksummed text at all (H:/P: seeds) is free; faithfulness is judged below like for any returned object
+            rec.ev("freeform.family_parser_returns_for_unchecksummed_text")
         elif ep in PURE:
-            reason = "_".join(sorted(set(bad_here.values()))) or ("other_kind" if A.ok(KT.ALL_KINDS) else
+            reason = "_".join(sorted(set(bad_here.values()))) or ("other_kind" if ok_bad(KT.ALL_KINDS)[0] else
                                                                   "foreign_prefix" if A.checksummed else "unchecksummed")
             verdict = ("refusal.%s.accepts_%s" % (ep, reason), None)
-        elif A.checksummed and (bad_here or A.ok(KT.ALL_KINDS)) and s[0] in ("contract", "key", "node"):
-            via_script = False
-            if ep in ("payable", "__call__") and s[0] == "contract" and "script" in ctx.fn:
-                st2, w = observe(ctx.fn["script"], text)
-                via_script = st2 == "ok" and w is not None and sig(w) == s
-            if not via_script:
-                if bad_here:
+        elif A.checksummed and s[0] in ("contract", "key", "node"):
+            anyok = ok_bad(KT.ALL_KINDS)[0]
+            if anyok:
+                # valid text of a kind this entry point does not dispatch to. Returning the very object the text denotes
+                # (private_key given an xprv, say) is not "parsed as a different kind"; anything else is
+                if any(match_value(v, val, deep) for val in anyok.values()):
+                    rec.ev("kindsep.catchall_returns_object_of_the_texts_own_kind")
+                elif bad_here:
                     verdict = ("refusal.%s.accepts_%s" % (ep, "_".join(sorted(set(bad_here.values())))), None)
                 else:
-                    verdict = ("kindsep.%s.returns_object_for_%s_text" % (ep, "+".join(sorted(A.ok(KT.ALL_KINDS)))), None)
+                    verdict = ("kindsep.%s.returns_object_for_%s_text" % (ep, "+".join(sorted(anyok))), None)
+            elif bad_here:
+                verdict = ("refusal.%s.accepts_%s" % (ep, "_".join(sorted(set(bad_here.values())))), None)
+        if verdict and ambiguous():
+            verdict = None
         if verdict:
             mech = diagnose(ep, A, text, v) or verdict[0]
             rec.violation(mech, case_of(ctx, ep, text, must, expect), s, verdict[1])
@@ -462,6 +544,11 @@ def judge(ctx, ep, text, A, rec, must=None, expect=None, deep=False):
             continue
         if rep not in ctx.fn:
             rec.ev("faithful.reparse_ep_absent")
+            return
+        if rep == ep and t2 == text:
+            # the text was already in the form the object re-serialises to: re-parsing it is the very call just judged
+            rec.ev("faithful.text_is_its_own_reserialisation")
+            rec.ev("faithful.ok")
             return
         rec.ev("faithful.reparse")
         st2, w = observe(ctx.fn[rep], t2)
@@ -508,9 +595,10 @@ def run_text(ctx, cls, text, rec, must_eps=None, must=None, expect=None):
         k = ctx.deep_counter % 3
         eps = [e for j, e in enumerate(ctx.eps) if e not in FREEFORM_EPS or j % 3 == k]
     rec.ev("entry_point_calls", len(eps))
+    memo = {}
     for ep in eps:
         m = must if (must_eps and ep in must_eps) else None
-        judge(ctx, ep, text, A, rec, must=m, expect=expect if m else None, deep=deep)
+        judge(ctx, ep, text, A, rec, must=m, expect=expect if m else None, deep=deep, memo=memo)
 
 
 # ---------------------------------------------------------------------------------------------
@@ -542,6 +630,8 @@ def structured_bodies(kind, rng):
             b = se.to_bytes(32, "big")
             out += [b, b + b"\x01"]
         b = rng.randrange(1, N).to_bytes(32, "big")
+        # 33 bytes that are no exponent + marker, but a number below the group order when read as one 33-byte integer
+        out += [(1).to_bytes(32, "big") + bytes([m]) for m in (0, 2)] + [bytes(2) + b[:31]]
         out += [b + bytes([m]) for m in (0, 2, 0x80, 0xff)] + [b + b"\x01\x01", b[:31], b[:31] + b"\x01"]
     elif kind in KT.BIP_KINDS:
         head = bytes([rng.choice([0, 1, 3, 255])]) + rbytes(rng, 4) + rng.choice([0, 1, 0x80000000, 0xffffffff]).to_bytes(4, "big") + rbytes(rng, 32)
@@ -639,6 +729,12 @@ def bech32_workload(ctx, rng, scale):
                 out.append(("bech32.no_data", R32.raw_encode(hrp, [], "bech32")))
                 out.append(("bech32.truncated", good[:-1]))
                 out.append(("bech32.hrp_only", hrp + "1"))
+            # a well-formed address under a human-readable part that begins / ends like the network's own (bc -> bcrt,
+            # bcc, b, tbc): a parser must compare the whole part
+            for alt in (hrp + "rt", hrp + hrp[-1], hrp[:-1], "t" + hrp):
+                if alt and alt != hrp:
+                    for ver, L in ((0, 20), (1, 32)):
+                        out.append(("bech32.hrp_not_anchored", R32.segwit_encode(alt, ver, rbytes(rng, L))))
     return out
 
 
@@ -959,8 +1055,9 @@ def reuse_relation(fresh, got):
     return "returns_other_object"
 
 
-def play_history(scope, maker, text, steps, rec, contexts=None):
+def play_history(scope, maker, text, steps, rec, contexts=None, fresh=None):
     """maker: code of the network whose parseable_str_type wraps the text; steps: [(network code, entry point)].
+    `fresh`: {(network code, entry point): outcome for the plain str}, shared between the histories of one text.
     -> True when every step answered as for the plain str."""
     contexts = contexts or all_contexts()
     text = str(text)
@@ -969,7 +1066,7 @@ def play_history(scope, maker, text, steps, rec, contexts=None):
         rec.ev("reuse.no_text_object_type")
         return True
     shared = mk(text)
-    fresh = {}
+    fresh = {} if fresh is None else fresh
     for i, (code, ep) in enumerate(steps):
         fn = contexts[code].fn.get(ep)
         if fn is None:
@@ -1060,6 +1157,7 @@ def run_reuse(ctx, spec, rec, rng, valid, constructed):
     cross = stratified(checks, 8, rng) if quick else list(checks)
     cross += rng.sample(free, 1 if quick else 4)
     good_codes = set(ctx.usable_codes)
+    plain = {}          # text -> {(network, entry point): answer for the plain str}
     for B in partners:
         if checksum_family(contexts[B]) is not fam:
             rec.ev("reuse.crossnet.other_checksum_family")
@@ -1075,7 +1173,7 @@ def run_reuse(ctx, spec, rec, rng, valid, constructed):
             rec.case(("reuse", A, B, text), nontrivial=len(text) > 0)
             for steps in legs:
                 for maker in ((steps[0][0],) if quick else (A, B)):
-                    play_history("crossnet", maker, text, steps, rec, contexts)
+                    play_history("crossnet", maker, text, steps, rec, contexts, plain.setdefault(text, {}))
         # the same texts as plain str on the partner, judged by the text model of the partner (a text of this network
         # is foreign, or - shared prefix - an equally valid text there)
         if B in good_codes:
@@ -1170,12 +1268,40 @@ def run_network(ctx, spec, rec):
     rec.ev("net." + ctx.sym)
 
 
+REFUSAL_REASONS = ("length", "range", "marker", "keybyte", "keytype", "point", "segwit")
+
+
+def returning_entry_points(contexts, codes):
+    """entry points that have something to return on at least one of the networks `codes`: every free-form parser and
+    catch-all, and the parser of each checksummed kind that some network declares a prefix / HRP for."""
+    ps = [contexts[c].params for c in codes if c in contexts]
+    out = set(k for k in MIXED if k != "__call__") | {"__call__", "parse_b58_hashed", "address"}
+    for kind in KT.B58_ADDR_KINDS + ("wif",) + KT.BIP_KINDS:
+        if any(P.prefix(kind) is not None for P in ps):
+            out.add(kind)
+            if kind in KT.BIP_KINDS:
+                out.add(kind.split("_")[0])
+    if any(P.hrp for P in ps):
+        out.update(KT.SEGWIT_KINDS)
+    return out
+
+
+def shares_prefix_between_kinds(P):
+    """two different checksummed kinds of the network carry prefixes one of which begins with the other (not: one and the
+    same prefix for P2PKH and P2SH, whose texts nothing can tell apart)."""
+    pf = P.b58_prefixes()
+    return any((pa.startswith(pb) or pb.startswith(pa)) and not (pa == pb and {a, b} == {"p2pkh", "p2sh"})
+               for i, (a, pa) in enumerate(pf) for b, pb in pf[i + 1:])
+
+
 def run_shard(spec, rec):
     import contextlib
     import io
     good, skipped = usable_networks()
     NETS.require_registry(rec, good, skipped)
     mine = good[spec["slice"]::spec["of"]]
+    with contextlib.redirect_stdout(io.StringIO()):
+        all_contexts()
     for c in all_contexts().values():
         c.quick = spec.get("tier") == "quick"
         c.usable_codes = tuple(sym for sym, _ in good)
@@ -1189,9 +1315,18 @@ def run_shard(spec, rec):
         with contextlib.redirect_stdout(io.StringIO()):
             run_network(ctx, spec, rec)
     if mine:
-        rec.require("reserialise.wif", "reserialise.hwif", "reserialise.address", "reserialise.as_text", "faithful.ok",
-                    "refusal.judged", "kindsep.other_kind_judged")
-        if any(sym in ("POLIS", "CHC") for sym, _ in mine):
+        rec.require("reserialise.wif", "reserialise.hwif", "reserialise.address", "reserialise.as_text",
+                    "reserialise.electrum_serialize", "faithful.ok", "faithful.reparse",
+                    "refusal.judged", "refusal.catchall_judged", "kindsep.other_kind_judged", "kindsep.catchall_judged",
+                    "kindsep.freeform_parser_judged")
+        # every way a checksummed payload can be wrong (the events of all shards are added up before this is looked at)
+        rec.require(*["refusal.judged." + r for r in REFUSAL_REASONS
+                      if r != "segwit" or any(all_contexts()[s_].params.hrp for s_, _ in good)])
+        # the faithfulness clause is only decided for an entry point that returned something: each one that can, must have
+        returning = returning_entry_points(all_contexts(), [s_ for s_, _ in good])
+        for sym, _ in mine:
+            rec.require(*["returned." + ep for ep in all_contexts()[sym].eps if ep in returning])
+        if any(shares_prefix_between_kinds(all_contexts()[sym].params) for sym, _ in mine):
             rec.require("kindsep.shared_prefix_judged")
         rec.require("reuse.samenet.step", "reuse.crossnet.step")
         if len({checksum_family(c) for c in all_contexts().values()}) > 1:
